@@ -54,20 +54,21 @@ type Frame struct {
 }
 
 type Client struct {
-	ID      int
-	nc      net.Conn
-	log     *mon.Log
-	Version primitive.ProtocolVersion
-	Comp    string // compression negotiated by Handshake ("" none)
-	wmu     sync.Mutex
-	mu      sync.Mutex
-	recv    []*Frame
-	waiters map[int16][]chan *Frame
-	byStr   map[int16][]*Frame
-	closed  chan struct{}
-	rerr    error
-	nrecv   int64
-	onFrame atomic.Value // func(*Frame): optional online monitor
+	ID       int
+	nc       net.Conn
+	log      *mon.Log
+	Version  primitive.ProtocolVersion
+	Comp     string // compression negotiated by Handshake ("" none)
+	wmu      sync.Mutex
+	mu       sync.Mutex
+	recv     []*Frame
+	waiters  map[int16][]chan *Frame
+	byStr    map[int16][]*Frame
+	closed   chan struct{}
+	rerr     error
+	nrecv    int64
+	ngarbage int64
+	onFrame  atomic.Value // func(*Frame): optional online monitor
 }
 
 // SetOnFrame installs a callback invoked (on the reader goroutine) for every received frame.
@@ -134,8 +135,23 @@ func (c *Client) reader() {
 			f.OpCode = primitive.OpCode(hb[4])
 			blen = int32(binary.BigEndian.Uint32(hb[5:9]))
 		}
-		if blen < 0 || blen > 512<<20 {
-			c.rerr = fmt.Errorf("bad body length %d", blen)
+		if blen < 0 || blen > 512<<20 || !f.IsResponse || !responseOpcode(f.OpCode) {
+			// not a response frame: the byte stream from the proxy is out of step (or was never one). Recorded for the
+			// oracles, and the connection is given up - nothing behind this point can be framed any more.
+			hl := 9
+			if v < primitive.ProtocolVersion3 {
+				hl = 8
+			}
+			junk := append([]byte{}, hb[:hl]...)
+			more := make([]byte, 64)
+			_ = c.nc.SetReadDeadline(time.Now().Add(50 * time.Millisecond))
+			n, _ := c.nc.Read(more)
+			junk = append(junk, more[:n]...)
+			c.log.Add(mon.Event{Src: "client", K: "garbage", Cl: c.ID, Ver: int(f.Version), Fl: int(f.Flags), St: int(f.Stream), Op: int(f.OpCode), Body: junk,
+				Note: fmt.Sprintf("not a response frame: response-bit=%v version=%d opcode=0x%02x announced body length=%d", f.IsResponse, f.Version, int(f.OpCode), blen)})
+			atomic.AddInt64(&c.ngarbage, 1)
+			c.rerr = fmt.Errorf("bytes that are not a response frame (opcode 0x%02x, length %d)", int(f.OpCode), blen)
+			_ = c.nc.Close()
 			break
 		}
 		f.Body = make([]byte, blen)
@@ -162,6 +178,19 @@ func (c *Client) reader() {
 	}
 	c.log.Add(mon.Event{Src: "client", K: "closed", Cl: c.ID, Note: fmt.Sprint(c.rerr)})
 }
+
+// responseOpcode: the opcodes a server may send.
+func responseOpcode(op primitive.OpCode) bool {
+	switch op {
+	case primitive.OpCodeError, primitive.OpCodeReady, primitive.OpCodeAuthenticate, primitive.OpCodeSupported, primitive.OpCodeResult,
+		primitive.OpCodeEvent, primitive.OpCodeAuthChallenge, primitive.OpCodeAuthSuccess:
+		return true
+	}
+	return false
+}
+
+// Garbage is the number of times the reader met bytes that are not a response frame (at most 1: it gives up then).
+func (c *Client) Garbage() int64 { return atomic.LoadInt64(&c.ngarbage) }
 
 func (c *Client) Closed() <-chan struct{} { return c.closed }
 func (c *Client) IsClosed() bool {
